@@ -75,7 +75,10 @@ def analyse_axial(repo, col, rule_roles):
     # the returned concatenation lists the three blocks
     if not ex.returns:
         raise AnalysisError("compute_axial_conductances has no return")
-    ret = ex.returns[-1]
+    from . import idx as _idx
+    from sa.terms import fuse_comprehensions
+    ret = fuse_comprehensions(_idx.inline(repo, fi, ex.returns[-1], keep=("compute_coupling_cond", "compute_coupling_cond_branchpoint",
+                                                                         "compute_impact_on_node")))
     lst = T.find(ret, lambda x: x.op == "list")
     if lst is None:
         raise AnalysisError("compute_axial_conductances no longer returns a concatenation of blocks")
